@@ -127,7 +127,19 @@ func judgeRaw(c *Case, o interp.Outcome) (sig, detail string) {
 	case "neg":
 		want = new(big.Int).Neg(A)
 	case "**":
-		want = new(big.Int).Exp(A, B, nil)
+		if c.A >= -1 && c.A <= 1 && c.B > 1000 {
+			// closed form for the unit bases (big.Int.Exp would loop over the whole exponent for -1 only in theory; keep it cheap)
+			switch {
+			case c.A == 0:
+				want = big.NewInt(0)
+			case c.A == 1 || c.B%2 == 0:
+				want = big.NewInt(1)
+			default:
+				want = big.NewInt(-1)
+			}
+		} else {
+			want = new(big.Int).Exp(A, B, nil)
+		}
 	case "//":
 		want = floorDiv(A, B)
 	case "%":
@@ -335,6 +347,12 @@ func genCase(route string) *rapid.Generator[Case] {
 	return rapid.Custom(func(t *rapid.T) Case {
 		c := Case{Op: rapid.SampledFrom(ops).Draw(t, "op"), Route: route}
 		c.A = genInt().Draw(t, "a")
+		if c.Op == "**" && rapid.IntRange(0, 5).Draw(t, "unit base") == 0 {
+			// bases whose powers always fit: any non-negative exponent, however large
+			c.A = rapid.SampledFrom([]int64{-1, 0, 1}).Draw(t, "unit")
+			c.B = rapid.OneOf(rapid.Int64Range(0, 1<<62), rapid.Int64Range(1<<53-4, 1<<53+4), rapid.Int64Range(math.MaxInt64-4, math.MaxInt64), rapid.Int64Range(60, 70)).Draw(t, "huge exponent")
+			return c
+		}
 		if c.Op == "**" {
 			c.B = rapid.Int64Range(0, 70).Draw(t, "e")
 			if rapid.IntRange(0, 2).Draw(t, "smallbase") > 0 {
